@@ -188,7 +188,7 @@ def r2_derivations(ctx):
         else:
             raise Unrecognised(f"{vg.where}: column generator `{u(v)[:80]}`")
         ctx.ob(vg.where, "a column's row generator iterates the column itself (one item per row), not a flattened or rendered form of it", ok, u(v)[:100],
-               key=f"C19-R2|row-generator|{u(v)[:40]}")
+               key=f"C19-R2|row-generator|{u(v)[:40]}", definite=True)
     ctx.floor("row generators of get_vanilla_generator", nret, 4)
     ft = ix.func(BD, "BNPDataClass.from_entry_tuples")
     ok = sym.canon(single_return_expr(ft.node)) == sym.canon(sym.parse_expr(f"cls(*(list(c) for c in zip(*{ft.params[1]})))"))
